@@ -113,6 +113,56 @@ func blockIf(b *ssa.BasicBlock) *ssa.If {
 // the truth value chosen by pred. pred returns (want, true) when it recognises the base condition and the
 // passing truth value is `want`.
 func EdgesWhere(fn *ssa.Function, pred func(base ssa.Value) (bool, bool)) []Edge {
+	out := edgesWhereIfs(fn, pred)
+	// a condition handed to a require-style helper (`if err := requireX(cond); err != nil { return err }`): on the nil
+	// edge of the helper's error the condition has the truth value the helper insists on
+	for _, b := range fn.Blocks {
+		for _, in := range b.Instrs {
+			call, ok := in.(*ssa.Call)
+			if !ok {
+				continue
+			}
+			h := call.Common().StaticCallee()
+			if h == nil || h.Blocks == nil || h == fn || call.Common().IsInvoke() {
+				continue
+			}
+			pol := requireStyle(h)
+			if len(pol) == 0 {
+				continue
+			}
+			for i, a := range call.Common().Args {
+				insists, ok := pol[i]
+				if !ok {
+					continue
+				}
+				base, neg := stripNot(a)
+				want, known := pred(base)
+				if !known {
+					continue
+				}
+				if neg {
+					want = !want
+				}
+				if want == insists {
+					vals := errValues(fn, call)
+					out = append(out, edgesWhereIfs(fn, func(base ssa.Value) (bool, bool) {
+						bo, ok := base.(*ssa.BinOp)
+						if !ok || (bo.Op != token.EQL && bo.Op != token.NEQ) {
+							return false, false
+						}
+						if !((vals[bo.X] && isNilConst(bo.Y)) || (vals[bo.Y] && isNilConst(bo.X))) {
+							return false, false
+						}
+						return bo.Op == token.EQL, true
+					})...)
+				}
+			}
+		}
+	}
+	return out
+}
+
+func edgesWhereIfs(fn *ssa.Function, pred func(base ssa.Value) (bool, bool)) []Edge {
 	var out []Edge
 	for _, b := range fn.Blocks {
 		i := blockIf(b)
@@ -133,6 +183,61 @@ func EdgesWhere(fn *ssa.Function, pred func(base ssa.Value) (bool, bool)) []Edge
 			out = append(out, Edge{b, 1})
 		}
 	}
+	return out
+}
+
+var requireStyleMemo = map[*ssa.Function]map[int]bool{}
+
+// requireStyle: for an error-returning function, the bool parameters it insists on: index -> truth value that the
+// parameter is known to have whenever the function returns a nil error (every return whose error may be nil lies
+// behind the corresponding edge of a test of the parameter itself).
+func requireStyle(h *ssa.Function) map[int]bool {
+	if m, ok := requireStyleMemo[h]; ok {
+		return m
+	}
+	requireStyleMemo[h] = nil
+	res := h.Signature.Results()
+	if res.Len() == 0 || !isErrorType(res.At(res.Len()-1).Type()) {
+		return nil
+	}
+	var out map[int]bool
+	for i, p := range h.Params {
+		if b, ok := p.Type().Underlying().(*types.Basic); !ok || b.Kind() != types.Bool {
+			continue
+		}
+		for _, truth := range []bool{true, false} {
+			edges := edgesWhereIfs(h, func(base ssa.Value) (bool, bool) {
+				if base == ssa.Value(p) {
+					return truth, true
+				}
+				return false, false
+			})
+			if len(edges) == 0 {
+				continue
+			}
+			all, n := true, 0
+			for _, ret := range Returns(h) {
+				rv := retVals(ret)
+				if len(rv) == 0 {
+					continue
+				}
+				if nonNilAt(rv[len(rv)-1], ret.Block(), 0) {
+					continue
+				}
+				n++
+				if !MustPass(h, edges, ret.Block()) {
+					all = false
+				}
+			}
+			if all && n > 0 {
+				if out == nil {
+					out = map[int]bool{}
+				}
+				out[i] = truth
+			}
+		}
+	}
+	requireStyleMemo[h] = out
 	return out
 }
 
